@@ -1992,6 +1992,13 @@ FINALIZE:
 func (query *Query) execAndPostProcess() (result any, err error) {
 	rs, err := query.exec()
 	if err != nil {
+		// the evaluation failed on some row: the asynchronous calls it had
+		// started for earlier rows are not left running behind the caller's
+		// back, and what it deferred is dropped with it
+		query.wg.Wait()
+		if len(query.postProcessors) > query.owed {
+			query.postProcessors = query.postProcessors[:query.owed]
+		}
 		return nil, err
 	}
 	err = query.settle()
